@@ -98,9 +98,6 @@ def subscriptionsForTopic (db : DB) (topic : Nat) (u : ProcUnit) : List Sub :=
   let ids := access ++ contributed ++ specific
   db.subs.filter (fun s => ids.contains s.user)
 
-/-- index of `NotificationTopic.NEW_CONTRIBUTOR` in the harness's topic numbering -/
-def newContributor : Nat := 6
-
 structure Publish where
   topic : Nat
   unit : ProcUnit
@@ -117,16 +114,18 @@ def stale (p : Publish) : Bool :=
   | some 0 => false
   | some t => decide (((p.now : Int) - 300) * 1000 > (t : Int))
 
-/-- `publish_message`: the subscription rows handed to `_post_webpush`. -/
-def publish (db : DB) (p : Publish) : List Sub :=
+/-- `publish_message`: the subscription rows handed to `_post_webpush`.
+    `nc` = the number the harness gives to `NotificationTopic.NEW_CONTRIBUTOR` (topics are numbered by their position
+    in the enum of the tree under test; nothing here depends on which number it is). -/
+def publish (nc : Nat) (db : DB) (p : Publish) : List Sub :=
   if !p.configured then []
   else if stale p then []
   else (subscriptionsForTopic db p.topic p.unit).filter
-         (fun s => !(p.topic == newContributor && p.contributorId == some s.user))
+         (fun s => !(p.topic == nc && p.contributorId == some s.user))
 
 /-- Mutant for the harness self-test: forgets the role check in the "specific units" scope and the contributor
     exclusion. -/
-def publishMutant (db : DB) (p : Publish) : List Sub :=
+def publishMutant (_nc : Nat) (db : DB) (p : Publish) : List Sub :=
   if !p.configured then []
   else if stale p then []
   else
@@ -136,5 +135,65 @@ def publishMutant (db : DB) (p : Publish) : List Sub :=
       (np.scope == .contributed && hasAccess p.unit.required np.roles && p.unit.contributors.contains np.user) ||
       (np.scope == .specific && np.units.contains p.unit.id))).map (·.user)
     db.subs.filter (fun s => ids.contains s.user)
+
+/-! ### The caller that builds the new-contributor notification (`aggregator.py`, `FromFrontend`)
+
+`save_method`, `request_cancel`, `request_force` and `add_contributor` (used by `excute_command` and
+`excute_control_button_command`) all end with
+
+    if user not in engine_data.contributors: self.publish_new_contributor_notification(engine_id, user)
+    engine_data.contributors.add(user)
+
+and `publish_new_contributor_notification` returns without publishing for a contributor without id or when the
+engine has no run; otherwise it schedules `publish_message(WebPushNotification(..., data=WebPushData(process_unit_id,
+contributor_id=contributor.id)), NEW_CONTRIBUTOR, engine_data)`.  The task runs after `contributors.add`, so the
+publish sees the new contributor among the unit's contributors.  The timestamp is the default `int(time.time()*1000)`. -/
+
+/-- `Mdl.Contributor`: id (`None` for an anonymous user) and name; membership in the contributor set is by both. -/
+structure Contributor where
+  id : Option Nat
+  name : Nat
+deriving Repr, DecidableEq
+
+/-- The part of `EngineData` that the contributor bookkeeping reads and writes. -/
+structure EngineSt where
+  id : Nat
+  required : List Nat
+  contributors : List Contributor
+  hasRun : Bool
+deriving Repr, DecidableEq
+
+def EngineSt.toUnit (e : EngineSt) : ProcUnit := ⟨e.id, e.required, e.contributors.filterMap (·.id)⟩
+
+structure Env where
+  configured : Bool   -- `webpush_publisher.wp is not None`
+  now : Nat           -- time.time() (s)
+deriving Repr, DecidableEq
+
+/-- `publish_new_contributor_notification`: the publish it schedules, if any. -/
+def newContributorNotification (nc : Nat) (e : EngineSt) (c : Contributor) (env : Env) : Option Publish :=
+  match c.id with
+  | none => none
+  | some uid =>
+    if !e.hasRun then none
+    else some ⟨nc, e.toUnit, some uid, env.configured, some (env.now * 1000), env.now⟩
+
+/-- The common tail of the contributing requests: new engine state and the subscription rows notified. -/
+def contribute (nc : Nat) (db : DB) (e : EngineSt) (c : Contributor) (env : Env) : EngineSt × List Sub :=
+  if e.contributors.contains c then (e, [])
+  else
+    let e' := { e with contributors := e.contributors ++ [c] }
+    (e', match newContributorNotification nc e' c env with
+         | none => []
+         | some p => publish nc db p)
+
+/-- Mutant for the harness self-test: the notification is built without `contributor_id`. -/
+def contributeMutant (nc : Nat) (db : DB) (e : EngineSt) (c : Contributor) (env : Env) : EngineSt × List Sub :=
+  if e.contributors.contains c then (e, [])
+  else
+    let e' := { e with contributors := e.contributors ++ [c] }
+    (e', match newContributorNotification nc e' c env with
+         | none => []
+         | some p => publish nc db { p with contributorId := none })
 
 end OPM.WebPush
